@@ -406,7 +406,7 @@ func c14CaseList(tier string, seed uint64) [][]int {
 func init() {
 	fw.Register(&fw.Prop{
 		ID:       "C14",
-		CaseCPU:  120,
+		CaseCPU:  900,
 		Title:    "No command crashes on a file the decoder accepts",
 		NeedsCLI: true,
 		Cases:    func(tier string, seed uint64) int { return len(c14CaseList(tier, seed)) },
